@@ -12,7 +12,7 @@ LEVEL = "partial"
 MODULE = "ImathVerif.Props.C06"
 IDX_GJ = os.path.join(lib.VERIF, "harness", "sym", "index_gj.txt")
 DRV = os.path.join(lib.LEAN, ".lake", "build", "bin", "drv_gj")
-CBOUND = 8          # calibrated: conforming paths measure <= 0.82 at seeds 1-3 (n = 4000 rounds each)
+CBOUND = 8          # calibrated: conforming paths measure <= 0.99 at seeds 1-5 (n = 40000 rounds each), <= 0.82 at the quick size
 REQUIRED = ["M22_inverse_spec", "M22_inverse_mul", "M22_inverse_singular", "M22_invert_eq_inverse",
             "M33_inverse_spec", "M33_inverse_affine_spec", "M33_affine_eq_general", "M33_inverse_mul", "M33_inverse_singular",
             "M33_invert_eq_inverse", "M44_inverse_affine_spec", "M44_affine_eq_general", "M44_inverse_nonaffine",
@@ -176,7 +176,7 @@ def correspondence(chk, binary, n):
 
 def residue(chk, binary, n):
     rc, out = lib.sh([binary, "residue", str(chk.seed), str(n), str(CBOUND)], timeout=3600)
-    summ = re.search(r"RESIDUE evals=(\d+) failures=(\d+) bound=(\S+) det_ge1=(\d+) det_lt1=(\d+) guard_identity=(\d+) finite_checked=(\d+) lattice_checked=(\d+)", out)
+    summ = re.search(r"RESIDUE evals=(\d+) failures=(\d+) bound=(\S+) det_ge1=(\d+) det_lt1=(\d+) guard_identity=(\d+) finite_checked=(\d+) lattice_checked=(\d+) dynamic_range_excluded_from_finiteness=(\d+)", out)
     if not summ:
         chk.oblige("residue", "residue", False, out[-500:])
         chk.fail("residue", "residue:run", "residue harness failed to run", {"output": out[-2000:]}, False)
@@ -230,6 +230,7 @@ def residue(chk, binary, n):
         "per_code_path": paths, "evaluations": int(summ.group(1)),
         "branch_hits": {"|det|>=1": int(summ.group(4)), "|det|<1 (guarded)": int(summ.group(5)), "guard returned identity": int(summ.group(6))},
         "finite_results_checked_below_cond_1/eps^2": int(summ.group(7)), "integer_lattice_matrices": int(summ.group(8)),
+        "excluded_from_the_finiteness_claim (a non-zero entry below eps^2*max|entry|, e.g. the denormal one-ulp perturbation of a 0)": int(summ.group(9)),
         "classes": dict(kv.split("=") for kv in (re.search(r"RCLASSES (.*)", out).group(1).split() if re.search(r"RCLASSES (.*)", out) else []))}
 
 
